@@ -279,9 +279,9 @@ harness16l! {
     }
 }
 
-harness16! {
+harness16l! {
     // bound: wrap_coord<f32>, D=1, L lattice (7-bit significand, |e|<=30), v f32 with 12-bit significand, 2^-100..2^38, ±0, |v|<=256 L
-    #[kani::unwind(4)]
+    #[kani::unwind(13)]
     fn c16_wrap_coord_lattice_1d_f32() {
         let l = any_period();
         let zero: bool = kani::any();
@@ -357,7 +357,13 @@ harness16l! {
         let data: i32 = kani::any();
         let input = [Vertex::<f64, i32, 2>::new_with_uuid(Point::new([v, 7.25]), uuid_n(5), Some(data))];
         let out = bhooks::canonicalize_vertices_toroidal(&input, [l, 4.0]);
-        let Ok(out) = out else { panic!("finite input with positive finite periods was refused") };
+        let out = match out {
+            Ok(out) => out,
+            Err(e) => {
+                core::mem::forget(e); // no drop glue of the nested error enum (symex does not finish with it)
+                panic!("finite input with positive finite periods was refused")
+            }
+        };
         assert!(out.len() == 1);
         assert!(out[0].uuid().as_u128() == input[0].uuid().as_u128(), "UUID preserved");
         assert!(out[0].data == Some(data), "user data preserved");
@@ -410,5 +416,33 @@ harness16! {
         kani::cover!(!good_cfg, "bad configuration reached");
         core::mem::forget(r);
         core::mem::forget(cfg);
+    }
+}
+
+harness16l! {
+    // bound: builder canonicalize_vertices (hook), one vertex, D=1, near lattice; UUID and data preserved; clauses (i), (ii)
+    #[kani::unwind(13)]
+    fn c16_builder_canonicalize_vertices_1d() {
+        let l = any_period();
+        let v = any_value();
+        kani::assume(v.abs() <= 256.0 * l);
+        let data: i32 = kani::any();
+        let input = [Vertex::<f64, i32, 1>::new_with_uuid(Point::new([v]), uuid_n(5), Some(data))];
+        let out = bhooks::canonicalize_vertices_toroidal(&input, [l]);
+        let out = match out {
+            Ok(out) => out,
+            Err(e) => {
+                core::mem::forget(e); // no drop glue of the nested error enum
+                panic!("finite input with positive finite periods was refused")
+            }
+        };
+        assert!(out.len() == 1);
+        assert!(out[0].uuid().as_u128() == input[0].uuid().as_u128(), "UUID preserved");
+        assert!(out[0].data == Some(data), "user data preserved");
+        let w = out[0].point().coords()[0];
+        check_box(v, l, w);
+        kani::cover!(v < 0.0 && w == 0.0, "a negative coordinate wraps to 0.0 (clamp exercised)");
+        kani::cover!(v == l, "v == L reached");
+        core::mem::forget(out);
     }
 }
